@@ -60,6 +60,16 @@ Proof.
   constructor; [exists v; exact Ev | apply (IH r eq_refl)].
 Qed.
 
+Lemma maxp_in b p0 : forall ps m, maxp b p0 ps = Some m -> m = p0 \/ In m ps.
+Proof.
+  induction ps as [|q ps IH]; intros m H; cbn [maxp] in H.
+  - inversion H. left. reflexivity.
+  - destruct (maxp b p0 ps) as [m'|] eqn:Em; [|discriminate].
+    destruct (poly_is_const (poly_add q (poly_scale (-1) m'))) as [c|]; [|discriminate].
+    destruct (IH m' eq_refl) as [Hm|Hm];
+      destruct (Qle_bool 0 c), b; inversion H; subst; auto; right; try (left; reflexivity); right; exact Hm.
+Qed.
+
 (* the normal form of a folded term carries no atom *)
 Theorem normalize_closed e : forall q, cfold e = Some q -> cshape (normalize e) = true.
 Proof.
@@ -92,6 +102,16 @@ Proof.
       destruct (Z.leb 0 z && Z.leb z 12); [apply cshape_pow; exact Ha | exact Haoc].
     + (* ONeg *) destruct args as [|a [|b rest]]; try exact Haoc.
       cbn [normalize]. inversion Hall as [|? ? Ha _]; subst. apply cshape_scale; exact Ha.
+    + (* OMax *) destruct args as [|a rest]; [exact Haoc|].
+      cbn [normalize]. inversion Hall as [|? ? Ha Hrest]; subst.
+      destruct (maxp true (normalize a) (map normalize rest)) as [m|] eqn:Em; [|exact Haoc].
+      destruct (maxp_in _ _ _ _ Em) as [->|Hin]; [exact Ha|].
+      apply in_map_iff in Hin. destruct Hin as [r [<- Hr]]. rewrite Forall_forall in Hrest. exact (Hrest r Hr).
+    + (* OMin *) destruct args as [|a rest]; [exact Haoc|].
+      cbn [normalize]. inversion Hall as [|? ? Ha Hrest]; subst.
+      destruct (maxp false (normalize a) (map normalize rest)) as [m|] eqn:Em; [|exact Haoc].
+      destruct (maxp_in _ _ _ _ Em) as [->|Hin]; [exact Ha|].
+      apply in_map_iff in Hin. destruct Hin as [r [<- Hr]]. rewrite Forall_forall in Hrest. exact (Hrest r Hr).
   - discriminate.
 Qed.
 
